@@ -660,6 +660,20 @@ impl<'tcx> Cx<'tcx> {
                 }
             }
         }
+        // A promoted of a PROVIDED trait method that is being interpreted for a type which overrides the method (the slice iterators
+        // run through `Iterator::all`'s default body): rustc would resolve the instance to the override, which has no such
+        // promoted.  It is interpreted here or kept opaque - never handed to the const evaluator.
+        if evaluable {
+            if let mir::Const::Unevaluated(uv, _) = cc {
+                if uv.promoted.is_some() && matches!(self.tcx.def_kind(self.tcx.parent(uv.def)), rustc_hir::def::DefKind::Trait) {
+                    if let Some(v) = self.eval_promoted(st, uv) {
+                        return Ok(v);
+                    }
+                    evaluable = false;
+                }
+            }
+        }
+        if std::env::var("MIRSUM_DEBUG").is_ok() { if let mir::Const::Unevaluated(uv, _) = cc { eprintln!("CONST-EVAL {:?} promoted={:?} evaluable={} n={}", uv.def, uv.promoted, evaluable, self.tcx.promoted_mir(uv.def).len()); } }
         let scalar = if evaluable { cc.try_eval_scalar_int(self.tcx, self.tenv) } else { None };
         if let Some(s) = scalar {
             let bits = s.to_bits(s.size());
@@ -784,23 +798,36 @@ impl<'tcx> Cx<'tcx> {
                         for sub in [tcx.types.f32, tcx.types.f64, tcx.types.u8] {
                             let args2 = uv.args.fold_with(&mut ty::BottomUpFolder { tcx, ty_op: |t| if matches!(t.kind(), ty::Param(_)) { sub } else { t }, lt_op: |l| l, ct_op: |c| c });
                             let uv2 = mir::UnevaluatedConst { def: uv.def, args: args2, promoted: None };
+                            // (the scalar substitutes may not satisfy the impl's bounds - `impl<S: VectorSpace, R> .. for Decomposed<S, R>`:
+                            // then the initialiser itself is interpreted, below)
+                            let ok_bounds = std::panic::catch_unwind(std::panic::AssertUnwindSafe(|| Instance::try_resolve(tcx, self.tenv, uv2.def, uv2.args)));
+                            if !matches!(ok_bounds, Ok(Ok(Some(_)))) {
+                                vals.clear();
+                                break;
+                            }
                             match mir::Const::Unevaluated(uv2, cty).eval(tcx, self.tenv, rustc_span::DUMMY_SP) {
                                 Ok(val) => match self.destructure_const(val, cty, 0) {
                                     Some(v) => vals.push(v),
-                                    None => return None,
+                                    None => { vals.clear(); break; }
                                 },
-                                Err(_) => return None,
+                                Err(_) => { vals.clear(); break; }
                             }
                         }
                         if vals.len() == 3 && Self::veq(&vals[0], &vals[1]) && Self::veq(&vals[0], &vals[2]) {
                             return vals.into_iter().next();
+                        }
+                        if vals.is_empty() {
+                            let b = std::panic::catch_unwind(std::panic::AssertUnwindSafe(|| tcx.mir_for_ctfe(did)));
+                            if let Ok(b) = b {
+                                return self.eval_straight_line(st, b, inst);
+                            }
                         }
                         return None;
                     }
                 }
                 // A constant of the crate under analysis whose type mentions the parameters (`impl<S, R> Partial<S, R> { const
                 // EMPTY: Self = Partial { scale: None, .. } }`): its straight-line initialiser is interpreted like a promoted.
-                if did.is_local() && { use rustc_middle::ty::TypeVisitableExt; cty.has_non_region_param() } {
+                if { use rustc_middle::ty::TypeVisitableExt; cty.has_non_region_param() } {
                     let b = std::panic::catch_unwind(std::panic::AssertUnwindSafe(|| tcx.mir_for_ctfe(did)));
                     if let Ok(b) = b {
                         return self.eval_straight_line(st, b, inst);
@@ -873,6 +900,28 @@ impl<'tcx> Cx<'tcx> {
                 match s.size().bytes() {
                     4 => Some(V::Sym(cfloat((f32::from_bits(bits as u32) as f64).to_bits(), 32))),
                     8 => Some(V::Sym(cfloat(bits as u64, 64))),
+                    _ => None,
+                }
+            }
+            ty::FnPtr(..) => {
+                // a function pointer constant (an entry of a table of accessors): the function or capture-free closure it points to
+                let mir::ConstValue::Scalar(rustc_middle::mir::interpret::Scalar::Ptr(ptr, _)) = val else { return None };
+                let (prov, _off) = ptr.into_raw_parts();
+                match self.tcx.global_alloc(prov.alloc_id()) {
+                    rustc_middle::mir::interpret::GlobalAlloc::Function { instance } => {
+                        let did = instance.def_id();
+                        // (a coerced closure is reached through the `FnOnce::call_once` shim taking the closure by value)
+                        if let Some(ct) = instance.args.get(0).and_then(|a| a.as_type()).filter(|t| matches!(t.kind(), ty::Closure(..))) {
+                            if !self.tcx.is_closure_like(did) {
+                                return Some(V::Fn(ct));
+                            }
+                        }
+                        if self.tcx.is_closure_like(did) {
+                            Some(V::Fn(Ty::new_closure(self.tcx, did, instance.args)))
+                        } else {
+                            Some(V::Fn(Ty::new_fn_def(self.tcx, did, instance.args)))
+                        }
+                    }
                     _ => None,
                 }
             }
@@ -1288,6 +1337,11 @@ impl<'tcx> Cx<'tcx> {
                     }
                     CastKind::FloatToInt => Ok(V::Sym(app("float_to_int", vec![self.to_term(st, &v)]))),
                     CastKind::PointerCoercion(..) => {
+                        // a capture-free closure coerced to a `fn` pointer (`const GET: [fn(&P) -> S; 3] = [|p| p.x, ..]`): the
+                        // pointer value is the closure itself
+                        if matches!(sty.kind(), ty::Closure(..)) && matches!(ty.kind(), ty::FnPtr(..)) {
+                            return Ok(V::Fn(sty));
+                        }
                         // &[T; N] -> &[T]: remember the length as a window over the array
                         if let (V::Ref(p), ty::Ref(_, inner, _) | ty::RawPtr(inner, _)) = (&v, ty.kind()) {
                             if matches!(inner.kind(), ty::Slice(_)) && p.win.is_none() {
@@ -1316,7 +1370,24 @@ impl<'tcx> Cx<'tcx> {
                         let d = ety.discriminant_for_variant(self.tcx, VariantIdx::from_u32(k)).map(|d| d.val).unwrap_or(k as u128);
                         Ok(V::Int(d))
                     }
-                    V::Sym(t) => Ok(V::Sym(app("discr", vec![t]))),
+                    V::Sym(t) => {
+                        // an enum with exactly one inhabited variant (`Result<T, Infallible>`): its discriminant is that variant's
+                        if let ty::Adt(def, args) = ety.kind() {
+                            if def.is_enum() {
+                                let inhabited: Vec<VariantIdx> = def
+                                    .variants()
+                                    .iter_enumerated()
+                                    .filter(|(_, vd)| !vd.fields.iter().any(|f| f.ty(self.tcx, args).is_privately_uninhabited(self.tcx, self.tenv)))
+                                    .map(|(vi, _)| vi)
+                                    .collect();
+                                if inhabited.len() == 1 && def.variants().len() > 1 {
+                                    let d = ety.discriminant_for_variant(self.tcx, inhabited[0]).map(|d| d.val).unwrap_or(inhabited[0].as_u32() as u128);
+                                    return Ok(V::Int(d));
+                                }
+                            }
+                        }
+                        Ok(V::Sym(app("discr", vec![t])))
+                    }
                     // optimised library MIR reads the discriminant of a dead local only to `assume` it; an unknown
                     // atom keeps any real use visible (it would fork on an opaque condition)
                     V::Undef => Ok(V::Sym(self.fresh("undef_discr"))),
@@ -1775,6 +1846,15 @@ impl<'tcx> Cx<'tcx> {
                     };
                     let (cdid, cargs) = match fty.kind() {
                         ty::FnDef(d, a) => (*d, *a),
+                        ty::Closure(d, a) => {
+                            // a call through a `fn` pointer that is a coerced capture-free closure: the closure body with an empty
+                            // environment and the arguments as its rust-call tuple
+                            let tup = Ty::new_tup(self.tcx, &argtys);
+                            let env = V::Agg(vec![]);
+                            argv = vec![env, V::Agg(argv)];
+                            argtys = vec![fty, tup];
+                            (*d, *a)
+                        }
                         _ => return self.top("call of non-FnDef".into(), tsp),
                     };
                     let dest = match self.eval_place(&mut st, destination) {
@@ -2146,14 +2226,19 @@ impl<'tcx> Cx<'tcx> {
                             }
                         }
                         // windows(n) / chunks_exact(n) with a concrete n: a by-value cursor over the list of sub-slices
-                        "windows" | "chunks_exact" => {
+                        "windows" | "chunks_exact" | "chunks_exact_mut" | "chunks" | "chunks_mut" => {
                             if let Some(n) = idx(1) {
                                 if n == 0 {
                                     return Err("PANIC:window size must be non-zero".into());
                                 }
-                                let starts: Vec<usize> = if m == "windows" { if len >= n { (0..=len - n).collect() } else { vec![] } } else { (0..len / n).map(|i| i * n).collect() };
+                                let starts: Vec<usize> = match m {
+                                    "windows" => if len >= n { (0..=len - n).collect() } else { vec![] },
+                                    "chunks" | "chunks_mut" => (0..(len + n - 1) / n).map(|i| i * n).collect(),
+                                    _ => (0..len / n).map(|i| i * n).collect(),
+                                };
                                 let rty = Ty::new_imm_ref(self.tcx, self.tcx.lifetimes.re_erased, self.ptr_ty(st, p)?);
-                                let items: Vec<V<'tcx>> = starts.iter().map(|a| sub(*a, n)).collect();
+                                // (the last chunk of `chunks` may be shorter)
+                                let items: Vec<V<'tcx>> = starts.iter().map(|a| sub(*a, std::cmp::min(n, len - *a))).collect();
                                 let cnt = items.len();
                                 let aty = Ty::new_array(self.tcx, rty, cnt as u64);
                                 st.cells.push(Cell { ty: aty, v: V::Agg(items), name: None });
@@ -2731,7 +2816,7 @@ impl<'tcx> Cx<'tcx> {
             entry.push_str(&self.jval(st, a, *t));
         }
         entry.push(']');
-        if name == "core::iter::traits::iterator::Iterator::fold" && argv.len() == 3 {
+        if (name == "core::iter::traits::iterator::Iterator::fold" || name == "core::iter::traits::iterator::Iterator::try_fold") && argv.len() == 3 {
             let lam = self.lambda(st, cargs, &argv[2], argtys[2], Some(argtys[1]));
             entry.push_str(&format!(",\"lambda\":{}", lam));
         }
@@ -3193,22 +3278,70 @@ impl<'tcx> Cx<'tcx> {
 }
 
 /// Summarise one root function (identity generic arguments); returns a JSON object.
+/// A type parameter of a root that is bounded by a PRIVATE trait of the analysed crate with exactly one, non-generic,
+/// implementor can only ever be that implementor (`impl<F: FieldSet> Visitor for KeyVisitor<F>` with `FieldSet` private and
+/// implemented by `DecomposedField` alone): the root is summarised for it.  Everything else stays a parameter.
+fn closed_world_args<'tcx>(tcx: TyCtxt<'tcx>, did: DefId) -> GenericArgsRef<'tcx> {
+    use rustc_middle::ty::TypeFoldable;
+    let ident: GenericArgsRef<'tcx> = ty::GenericArgs::identity_for_item(tcx, did);
+    let mut subst: Vec<(u32, Ty<'tcx>)> = vec![];
+    let preds = tcx.predicates_of(did).instantiate_identity(tcx);
+    for p in preds.predicates.iter() {
+        let p = p.skip_norm_wip();
+        if let Some(tp) = p.as_trait_clause() {
+            let tp = tp.skip_binder();
+            let self_ty = tp.trait_ref.self_ty();
+            let ty::Param(pp) = self_ty.kind() else { continue };
+            let tdid = tp.trait_ref.def_id;
+            if !tdid.is_local() || tcx.visibility(tdid).is_public() {
+                continue;
+            }
+            let impls: Vec<DefId> = tcx.all_impls(tdid).collect();
+            if impls.len() != 1 {
+                continue;
+            }
+            let ity = tcx.type_of(impls[0]).instantiate_identity().skip_norm_wip();
+            use rustc_middle::ty::TypeVisitableExt;
+            if ity.has_non_region_param() {
+                continue;
+            }
+            if !subst.iter().any(|(i, _)| *i == pp.index) {
+                subst.push((pp.index, ity));
+            }
+        }
+    }
+    if subst.is_empty() {
+        return ident;
+    }
+    ident.fold_with(&mut ty::BottomUpFolder {
+        tcx,
+        ty_op: |t| match t.kind() {
+            ty::Param(p) => subst.iter().find(|(i, _)| *i == p.index).map(|(_, x)| *x).unwrap_or(t),
+            _ => t,
+        },
+        lt_op: |l| l,
+        ct_op: |c| c,
+    })
+}
+
 pub fn summarise_root<'tcx>(tcx: TyCtxt<'tcx>, did: DefId) -> String {
     let tenv = TypingEnv::post_analysis(tcx, did);
     let cx = Cx::new(tcx, tenv);
-    let args: GenericArgsRef<'tcx> = ty::GenericArgs::identity_for_item(tcx, did);
+    let args: GenericArgsRef<'tcx> = if did.is_local() && std::env::var("MIRSUM_LOCAL").is_ok() { closed_world_args(tcx, did) } else { ty::GenericArgs::identity_for_item(tcx, did) };
     let inst = Instance::new_raw(did, args);
     let body = tcx.instance_mir(inst.def);
     let mut st = State { cells: vec![], frames: vec![], trace: vec![], decided: vec![], symcells: vec![], excluded: vec![], pending: vec![] };
     let mut locals = vec![];
+    let identity = args == ty::GenericArgs::identity_for_item(tcx, did);
+    let inst_ty = |t: Ty<'tcx>| -> Ty<'tcx> { if identity { t } else { inst.instantiate_mir_and_normalize_erasing_regions(tcx, tenv, EarlyBinder::bind(t)) } };
     for decl in body.local_decls.iter() {
-        st.cells.push(Cell { ty: decl.ty, v: V::Undef, name: None });
+        st.cells.push(Cell { ty: inst_ty(decl.ty), v: V::Undef, name: None });
         locals.push(st.cells.len() - 1);
     }
     let mut post = vec![];
     let mut argdesc = vec![];
     for i in 1..=body.arg_count {
-        let ty = body.local_decls[mir::Local::from_usize(i)].ty;
+        let ty = inst_ty(body.local_decls[mir::Local::from_usize(i)].ty);
         let name = format!("a{}", i - 1);
         let v = cx.mk_sym(&mut st, ty, &name);
         if let V::Ref(p) = &v {
